@@ -474,11 +474,7 @@ impl<T> DataReaderEntity<T> {
         let num_replaced_samples = usize::from(index_sample_to_replace.is_some());
 
         let is_max_samples_limit_reached = {
-            let total_samples = self
-                .sample_list
-                .iter()
-                .filter(|cc| cc.kind == ChangeKind::Alive)
-                .count();
+            let total_samples = self.sample_list.len();
 
             total_samples - num_replaced_samples == self.qos.resource_limits.max_samples
         };
